@@ -427,6 +427,17 @@ def mk_fn(name, *args):
         got = _ungather([xp, fp], lab_)
         if got is not None:
             args = (args[0], B(lab_, got[0]), B(lab_, got[1])) + tuple(args[3:])
+    if name == 'searchsorted' and len(args) == 2 and args[0][0] == 'B' and args[1][0] == 'P':
+        # the position of q in a sorted table is unchanged when both are rescaled by the same positive factor: no unit atom common to every term of the query
+        qp, xp = Poly.from_key(args[1][1]), Poly.from_key(args[0][2])
+        if not qp.is_zero() and not xp.is_zero():
+            common = None
+            for m in qp.t:
+                ue = {a: e for a, e in m if a[0] == 'sym' and a[1].startswith('unit:')}
+                common = ue if common is None else {a: e for a, e in common.items() if ue.get(a) == e}
+            if common:
+                f = Poly({tuple(sorted(((a, -e) for a, e in common.items()), key=lambda t: repr(t[0]))): Fraction(1)})
+                args = (B(args[0][1], xp * f), P(qp * f))
     if name in LINEAR_FNS and len(args) > LINEAR_FNS[name] and args[LINEAR_FNS[name]][0] == 'B':
         k = LINEAR_FNS[name]
         lab, fp = args[k][1], Poly.from_key(args[k][2])
@@ -577,6 +588,55 @@ def _ungather(polys, lab):
     return out
 
 
+def expand_interp(p, unsorted=None, assume_sorted=False):
+    """np.interp(q, x, y) written as the linear interpolation interp1d does inside the table, with the first / last ordinate (or left= / right=) held beyond
+    its ends: the spellings of 'held constant (or zero) beyond the ends of the table' then have one normal form.  np.interp does not sort its table, so an
+    atom is expanded only when its abscissa is known to increase (gathered by its own argsort), or when the caller takes that as a precondition"""
+    def f(a):
+        if a[0] == 'fn' and a[1] == 'interp' and len(a) >= 5 and a[2][0] == 'P' and a[3][0] == 'B' and a[4][0] == 'B' and a[3][1] == a[4][1]:
+            q, lab, xp, fp = Poly.from_key(a[2][1]), a[3][1], Poly.from_key(a[3][2]), Poly.from_key(a[4][2])
+            if not assume_sorted and array_fn('argsort', lab, xp) != Poly.atom(('fn', 'arange', ('L', lab))):
+                if unsorted is not None:
+                    unsorted.append(xp)
+                return None
+            ends = {'left': mk_fn('at', B(lab, fp), P(Poly())), 'right': mk_fn('at', B(lab, fp), P(Poly.const(-1)))}
+            for x in a[5:]:
+                if x[0] != 'C' or '=' not in x[1]:
+                    return None
+                k_, v_ = x[1].split('=', 1)
+                try:
+                    ends[k_] = Poly.const(Fraction(v_))
+                except (ValueError, ZeroDivisionError):
+                    return None
+            lin = mk_fn('lininterp', P(q), B(lab, xp), B(lab, fp), C('bounds_error=False'), C('fill_value=Marker(numpy.nan)'))
+            lo, hi = mk_fn('at', B(lab, xp), P(Poly())), mk_fn('at', B(lab, xp), P(Poly.const(-1)))
+            r = lin + lt(q, lo) * (ends['left'] - lin)
+            return r + lt(hi, q) * (ends['right'] - r)
+        return None
+    return rebuild(p, f)
+
+
+def unfold_lininterp(p):
+    """Linear interpolation inside a table written out: with the table sorted by its abscissa and hi = clip(searchsorted(x, q), 1, n - 1), lo = hi - 1,
+    the value is y[lo] * (x[hi] - q) / (x[hi] - x[lo]) + y[hi] * (q - x[lo]) / (x[hi] - x[lo]).  Only the strict form (which refuses queries outside
+    the table) is unfolded, so the identity is needed - and used - inside the table only; a hand-written interpolation of that shape and interp1d then
+    have one normal form."""
+    def f(a):
+        if a[0] == 'fn' and a[1] == 'lininterp' and len(a) == 5 and a[2][0] == 'P' and a[3][0] == 'B' and a[4][0] == 'B' and a[3][1] == a[4][1]:
+            q, lab, xp, fp = Poly.from_key(a[2][1]), a[3][1], Poly.from_key(a[3][2]), Poly.from_key(a[4][2])
+            srt = array_fn('argsort', lab, xp)
+            xs, ys = index_at(xp, lab, srt), index_at(fp, lab, srt)
+            ss = mk_fn('searchsorted', B(lab, xs), P(q))
+            top = count(lab) - 1
+            hi = ss + lt(ss, Poly.const(1)) * (Poly.const(1) - ss) + lt(top, ss) * (top - ss)          # np.clip(ss, 1, n - 1), as the interpreter writes it
+            lo = hi - 1
+            xlo, xhi, ylo, yhi = index_at(xs, lab, lo), index_at(xs, lab, hi), index_at(ys, lab, lo), index_at(ys, lab, hi)
+            inv = (xhi - xlo).pow(-1)
+            return ylo * (xhi - q) * inv + yhi * (q - xlo) * inv
+        return None
+    return rebuild(p, f)
+
+
 def _ln_const(c):
     c = Fraction(c)
     if c == 1:
@@ -626,7 +686,15 @@ def mk_ind(op, p):
 
 
 def _scale_normalise(p, allow_flip):
-    """Divide by |leading coefficient| (and by its sign for equalities)."""
+    """Divide by |leading coefficient| (and by its sign for equalities), and by the unit atoms - positive numbers - every term carries."""
+    common = None
+    for m in p.t:
+        ue = {a: e for a, e in m if a[0] == 'sym' and a[1].startswith('unit:')}
+        common = ue if common is None else {a: e for a, e in common.items() if ue.get(a) == e}
+        if not common:
+            break
+    if common:
+        p = p * Poly({tuple(sorted(((a, -e) for a, e in common.items()), key=lambda t: repr(t[0]))): Fraction(1)})
     items = sorted(p.t.items(), key=lambda mc: _k(mc[0]))
     lead = None
     for m, c in items:
